@@ -28,12 +28,14 @@ func DHTFindNode(params DHTFindNodeParams) (*DHTFindNodeResult, error) {
 		params.Validate = func(NodeInfo) bool { return true }
 	}
 	var res DHTFindNodeResult
+	var haveClosest bool
 	dhtIterate(params.Initial, params.Target[:], 10, func(node NodeInfo) ([]NodeInfo, bool) {
-		if res.Closest.IsZero() || DistanceLt(params.Target[:], node.ID[:], res.Closest[:]) {
+		if !haveClosest || DistanceLt(params.Target[:], node.ID[:], res.Closest[:]) {
+			haveClosest = true
 			res.Closest = node.ID
 			res.Info = node.Info
 		}
-		if res.Closest == params.Target {
+		if haveClosest && res.Closest == params.Target {
 			return nil, false
 		}
 		resp, err := params.Ask(node, FindNodeReq{
@@ -54,7 +56,7 @@ func DHTFindNode(params DHTFindNodeParams) (*DHTFindNodeResult, error) {
 		return nodes2, true
 	})
 	var err error
-	if res.Closest != params.Target {
+	if !haveClosest || res.Closest != params.Target {
 		err = fmt.Errorf("could not find %v closest %v", params.Target, res.Closest)
 	}
 	return &res, err
@@ -115,9 +117,10 @@ func DHTGet(params DHTGetParams) (*DHTGetResult, error) {
 	peers := params.Initial
 
 	var res DHTGetResult
+	var found bool
 	dhtIterate(peers, params.Key, 3, func(node NodeInfo) ([]NodeInfo, bool) {
 		// if we are getting further away then break
-		if !res.From.IsZero() && DistanceLt(params.Key, res.From[:], node.ID[:]) {
+		if found && DistanceLt(params.Key, res.From[:], node.ID[:]) {
 			return nil, false
 		}
 		res.NumContacted++
@@ -127,15 +130,18 @@ func DHTGet(params DHTGetParams) (*DHTGetResult, error) {
 			return nil, true
 		}
 		res.NumResponded++
-		res.Closest = node.ID
+		if res.NumResponded == 1 || DistanceLt(params.Key, node.ID[:], res.Closest[:]) {
+			res.Closest = node.ID
+		}
 		if resp.Value != nil && params.Validate(resp.Value) {
 			res.Value = resp.Value
 			res.From = node.ID
+			found = true
 		}
 		return resp.Closer, true
 	})
 	var err error
-	if res.From.IsZero() {
+	if !found {
 		err = fmt.Errorf("could not find key %s, closest peer %v", params.Key, res.From[:])
 	}
 	return &res, err
@@ -178,7 +184,7 @@ func DHTPut(params DHTPutParams) (*DHTPutResult, error) {
 		res.Responded++
 		if resp.Accepted {
 			res.Accepted++
-			if DistanceLt(params.Key, node.ID[:], res.Closest[:]) {
+			if res.Accepted == 1 || DistanceLt(params.Key, node.ID[:], res.Closest[:]) {
 				res.Closest = node.ID
 			}
 		}
